@@ -82,6 +82,33 @@ def run(repo: Repo, chk: Check) -> None:
     loop_level(repo, chk)
     clone_order(repo, chk)
     uses_helper(repo, chk)
+    loop_exit_state(repo, chk)
+
+
+# --------------------------------------------------------------------------- what the registers hold when the loop is left
+def loop_exit_state(repo: Repo, chk: Check) -> None:
+    """the loop pattern leaves one more setup behind than the program had: the copy at the end of the LAST iteration (and the copy in front of the loop when
+    it does not run at all) writes the fields of the body's first setup for an iteration that never comes. The loop then yields that state, so the IR stays
+    consistent - but a setup after the loop that accfg-dedup has already reduced against the ORIGINAL yielded state no longer restores those fields, and a
+    launch after the loop observes the values of the phantom iteration. Sound forms: the rewrite is refused while the loop's state result has users, or the
+    original state is re-established behind the loop"""
+    chk.rule("C06.loop-exit-state", "the loop-level overlap changes the state the loop yields only if nothing after the loop was written against that state (the state result "
+             "is unused), or it re-establishes the yielded state behind the loop", floor=1)
+    f, fl = flow_of(repo, chk, OVERLAP, "LoopLevelSetupAwaitOverlapPattern.match_and_rewrite")
+    stores = [s for s in fl.stmts(ast.Assign) if s.reachable and isinstance(s.node.targets[0], ast.Subscript) and norm.match(T("$y.operands"), s.node.targets[0].value) is not None
+              and depends_on(fl.cone(s.node.value, s, inline=0), "$x.out_state")
+              and has_fact(s, ["isinstance($y, scf.YieldOp)", "isinstance($y, YieldOp)"], {"y": norm.match(T("$y.operands"), s.node.targets[0].value)["y"]})]
+    if not stores:
+        raise AnalysisError(f"{f.where}: the redirection of the yield operand to the moved setup's state was not found")
+    for n_, s in enumerate(stores, 1):
+        unused = any(fa.kind == "atom" and any(isinstance(a_, ast.Attribute) and a_.attr in ("results", "res") for a_ in ast.walk(fa.expr))
+                     and any(isinstance(a_, ast.Attribute) and a_.attr == "uses" for a_ in ast.walk(fa.expr)) for fa in s.facts)
+        restored = any(isinstance(c_, ast.Call) and norm.match(T("InsertPoint.after($l)"), c_) is not None for c_ in ast.walk(f.node))
+        chk.result(unused or restored, "C06.loop-exit-state", f"{f.key}:yield-redirect#{n_}", s.where(),
+                   "the yielded state changes only when no later op was written against it (or it is restored behind the loop)",
+                   "the loop is made to yield the state of the extra end-of-body setup without a test that the loop's state result is unused and without restoring the original "
+                   "state behind the loop: after accfg-dedup, a post-loop setup that omits fields equal on the init and the yield path no longer restores them, and the next "
+                   "launch observes the values set up for an iteration that never runs (findings/C06_post_loop_launch_after_dedup.mlir)", s.fact_texts)
 
 
 # --------------------------------------------------------------------------- block level
